@@ -180,8 +180,6 @@ jobs:
               k: x
         exclude:
           - os: a
-            cfg:
-              k: v
     container:
       image: i
       credentials:
